@@ -200,6 +200,9 @@ def resampleFwd (m n M N preY preX postY postX : Nat) (F1 F2 Eo Ei : Mat C) (c :
 def resampleBack (conj : C → C) (m n M N preY preX postY postX : Nat) (G1 G2 Eo Ei : Mat C) (c : C) (y : Mat C) : Mat C :=
   fun i j => c * roll2 m n postY postX (idft2 m m n n G1 (roll2 m n preY preX (dftBack conj M m n N Eo y Ei)) G2) i j
 
+/-- `.real` of an array, written with the conjugation only: `(x + conj x) / 2` (over `ℂ` this is `Re x`) -/
+def realPart (conj : C → C) (x : Mat C) : Mat C := fun i j => (x i j + conj (x i j)) / Num.ofInt 2
+
 /-- the adjoint of each array operation of `fourier_resample`, by the tag the translator gives it
 (`fft2ᴴ = size · ifft2`: the size factor is accounted for by the translated scale factors) -/
 def resampleAdjointOf (step : String) : String :=
